@@ -336,7 +336,9 @@ func runC09(c *fw.Ctx, idx int) {
 				c.Fail("partial-not-a-prefix:"+codec, detail(map[string]interface{}{"why": r, "err": err.Error()}))
 				continue
 			}
-			if ti == 1 && v.Kind() == reflect.Struct {
+			// (not at a cut inside a text token: there a truncated token may happen to spell the full value — "/L" is the
+			// abbreviation of "/Local" — and one byte later something else)
+			if ti == 1 && v.Kind() == reflect.Struct && !c09Lenient {
 				pv := c09Unwrap(reflect.ValueOf(out))
 				fv := c09Unwrap(reflect.ValueOf(fulls[ti]))
 				if fv.IsValid() && fv.Kind() == reflect.Struct {
